@@ -1,4 +1,4 @@
 From Coq Require Import Extraction ExtrOcamlBasic.
 From PV Require Import Lib.ExtBase C01.FS C06.Model.
 Extraction "model.ml" ext_base_z ext_base_n ext_base_nat ext_base_res ext_base_list
-  run_gob run_commit run_collection run_fonts run_cheat run_certs tree_of_list tree_to_list content_of_list.
+  run_gob run_commit run_collection run_fonts run_cheat run_certs run_decide tree_of_list tree_to_list content_of_list.
